@@ -371,6 +371,12 @@ def run(ctx):
     check_grammar(ctx)
     check_slots(ctx)
     check_zero_is_a_value(ctx)
+    from ..lints import one_sided_signed_part_tests
+
+    hits = one_sided_signed_part_tests(ctx.repo, ("utils", "operators._io", "measurements.expectation_values", "measurements.parities", "measurements.measurements", "operators._pauli_operators"))
+    for fi, t in hits:
+        ctx.violation(R5, f"{fi.key}:one-sided:{short(t, 40)}", f"`{short(t)}` decides about an imaginary part by a one-sided comparison: negative imaginary parts count as negligible and are dropped from what is written / parsed", f"{fi.module.relpath}:{t.lineno}")
+    ctx.ok(R5, "artefacts:one-sided-imag", f"no one-sided test on an imaginary part ({len(hits)} found)", "")
     ctx.floor("C11-D5", 4)
     ctx.floor("C11-D1 ", 60)
     ctx.floor("C11-D1g", 5)
